@@ -152,6 +152,19 @@ CHECKS.update({
         design='DESIGN.md §4 C13', engine='worlds+refmodel'),
 })
 
+CHECKS.update({
+    'C08': dict(
+        technique='exhaustive enumeration of bounded task-class/declaration-form/mounting families on the real Chain constructor vs an independent resolver + Warshall closure',
+        text='Edge families: 2-3 (thorough: 4) task classes with every declaration form {none, by class, by name, by group:name, optional by class/name} on every potential edge x group '
+             'schemes x {root, `as n`, nested `o::n`}; special family: ~ and ~~ patterns, one file mounted twice, a namespace whose text prefixes a task name (with and without a root-level '
+             'homonym), root-level homonyms of namespaced tasks, nested qualified references, exclusion / abstract / wildcard discovery, every declaration order, exclusion in one of two '
+             'mountings, self-loop / 2-cycle / 3-cycle / pattern self-match / dangling required and optional inputs; each in parameter and name mode. Oracle: chain.tasks, graph edges and '
+             'input registries on task objects, required_tasks / dependent_tasks / is_task_dependent_on for all pairs == independent resolver + Warshall on the quotient by legitimately '
+             'shared objects; invalid declarations must raise a deliberate exception (not RecursionError/AttributeError/TypeError) and yield no chain.',
+        note='Duplicate-input and ambiguous-input configurations and absolute reference spellings are outside the statement and skipped (counted in evidence).',
+        design='DESIGN.md §4 C08', engine='worlds+refmodel'),
+})
+
 PENDING_REASON = 'check not built yet in this round (planned per DESIGN.md §4; technique applies)'
 
 
